@@ -36,23 +36,28 @@ theorem dec_true {p : Prop} [Decidable p] (h : p) : decide p = true := by simp [
 theorem dec_false {p : Prop} [Decidable p] (h : ¬ p) : decide p = false := by simp [h]
 
 /-- unfold both machines and compute; side conditions of the checked loads/stores by `omega` -/
-macro "tr_simp1" "[" ts:Lean.Parser.Tactic.simpLemma,* "]" : tactic => `(tactic|
+macro "tr_simp1" "[" ts:Lean.Parser.Tactic.simpLemma,* "]" loc:(Lean.Parser.Tactic.location)? : tactic => `(tactic|
   simp (disch := ((try simp only [rd_length, wr_length, fresh_length, List.length_cons, List.length_nil, List.length_map, bytesOf]); omega))
     [tr_gen, capOf, Nat.max_self, Nat.max_eq_left, Nat.max_eq_right, objOf, heapOf, blocksOf, attOf, out, outB, bind, pure, branch, val, C.led, ngt, nlt, nge, nle, neq, nadd, nsub, nmul, ndiv, nshr, nshl, Nat.pow_one, pdiff, padd, psub,
      ple, plt, pge, pgt, peq, prel, tern, band, bor, bnot, truthy, nullPtr, cellPtr,
      newArr, memcopy, memmove, load, store, store0, deleteArr, getBlk, setBlk, disjoint, allocId, checkLive, deleteId, newBlock,
      Store.load, Store.write, Store.release, liftO, newCap, ptrSub, Buf.termIfOwning, Buf.home, Buf.owning, Buf.default, cfault, fault,
-     noOverlap, rd_all, rd_zero, rdList_some, wrList_some, List.lookup, List.filter_cons, List.filter_nil, List.map_cons, List.map_nil, $ts,*, *])
+     noOverlap, rd_all, rd_zero, rdList_some, wrList_some, List.lookup, List.filter_cons, List.filter_nil, List.map_cons, List.map_nil, $ts,*, *] $[$loc]?)
 
 /-- decide the conditions the computation is stuck at from the case hypotheses (`omega`), however the source spells them -/
-macro "tr_fix" : tactic => `(tactic|
+macro "tr_fix" loc:(Lean.Parser.Tactic.location)? : tactic => `(tactic|
   simp (disch := ((try simp only [rd_length, wr_length, fresh_length, List.length_cons, List.length_nil, List.length_map, bytesOf]); omega)) only
-    [dec_true, dec_false, if_pos, if_neg])
+    [dec_true, dec_false, if_pos, if_neg] $[$loc]?)
 
 open Lean Elab Tactic Meta in
-/-- case split on the first closed condition (`decide p` / `if p then … else …`) the goal still contains -/
-elab "split_cond" : tactic => withMainContext do
-  let g ← getMainTarget
+/-- case split on the first closed condition (`decide p` / `if p then … else …`) the goal (or the hypothesis `hG`) still contains -/
+elab "split_cond" h:(" at " ident)? : tactic => withMainContext do
+  let g ← match h with
+    | some stx => do
+        let id : TSyntax `ident := ⟨stx.raw[1]⟩
+        let fv ← getFVarId id
+        instantiateMVars (← fv.getType)
+    | none => getMainTarget
   let cond? := g.find? (fun e =>
     (e.isAppOfArity ``Decidable.decide 2 && !(e.getArg! 0).hasLooseBVars) ||
     (e.isAppOfArity ``ite 5 && !(e.getArg! 1).hasLooseBVars))
@@ -73,6 +78,18 @@ macro "tr_simp" "[" ts:Lean.Parser.Tactic.simpLemma,* "]" : tactic => `(tactic| 
   all_goals try (split_cond <;> (first | (exfalso; omega) | (tr_simp1 [$ts,*]; all_goals try (tr_fix; tr_simp1 [$ts,*]))))
   all_goals try (split_cond <;> (first | (exfalso; omega) | (tr_simp1 [$ts,*]; all_goals try (tr_fix; tr_simp1 [$ts,*]))))
   all_goals try (first | (simp; done) | (refine ⟨_, _, ⟨rfl, rfl⟩, ?_⟩; first | (simp; done) | (simp; all_goals (congr <;> omega)) | (and_intros <;> first | rfl | (congr <;> omega)) | (simp; all_goals (apply List.ext_getElem?; intro i; grind))))))
+
+set_option hygiene false in
+/-- the generated run was named (`generalize hG : Gen.f … = g`): compute it ONCE in `hG` (deciding / splitting conditions as `tr_simp`
+    does), substitute, then compute the model side -/
+macro "tr_once" "[" ts:Lean.Parser.Tactic.simpLemma,* "]" : tactic => `(tactic| (
+  tr_simp1 [$ts,*] at hG
+  all_goals try (tr_fix at hG; tr_simp1 [$ts,*] at hG)
+  all_goals try (tr_fix at hG; tr_simp1 [$ts,*] at hG)
+  all_goals try (split_cond at hG <;> (first | (exfalso; omega) | (tr_simp1 [$ts,*] at hG; all_goals try (tr_fix at hG; tr_simp1 [$ts,*] at hG))))
+  all_goals try (split_cond at hG <;> (first | (exfalso; omega) | (tr_simp1 [$ts,*] at hG; all_goals try (tr_fix at hG; tr_simp1 [$ts,*] at hG))))
+  all_goals try (split_cond at hG <;> (first | (exfalso; omega) | (tr_simp1 [$ts,*] at hG; all_goals try (tr_fix at hG; tr_simp1 [$ts,*] at hG))))
+  all_goals (subst hG; tr_simp [$ts,*])))
 
 set_option hygiene false in
 /-- the facts about an owning object `own id m` with ledger `L` that the computation needs -/
